@@ -87,10 +87,11 @@ const c10SuggestedPrice = 777
 type c10Node struct {
 	mu         sync.Mutex
 	chainID    *big.Int
-	in         c10In  // the CancelTx under way
-	mode       string // cancel | send
-	sug        string // current answer to a tip query
-	sends      uint64 // plain transactions accepted so far (pending nonce of the account)
+	in         c10In              // the CancelTx under way
+	mode       string             // cancel | send
+	sug        string             // current answer to a tip query
+	sends      uint64             // plain transactions accepted so far (pending nonce of the account)
+	lastSent   *types.Transaction // the last plain transaction the node received from this client
 	orig       *types.Transaction
 	sub        *c10Tx
 	acc        bool
@@ -150,6 +151,7 @@ func (n *c10Node) SendTransaction(ctx context.Context, tx *types.Transaction) er
 func (n *c10Node) submitLocked(tx *types.Transaction) error {
 	if n.mode == "send" {
 		n.sends++
+		n.lastSent = tx
 		return nil
 	}
 	if n.sub != nil {
@@ -198,6 +200,8 @@ func (n *c10Node) TransactionByHash(ctx context.Context, txHash common.Hash) (*t
 		return nil, false, errC10Injected
 	case "nil":
 		return nil, false, nil
+	case "garbage":
+		return nil, false, errC10Injected
 	case "nilpending":
 		return nil, true, nil
 	}
@@ -272,6 +276,8 @@ func (n *c10Node) answerRPC(r c10RPCReq) (interface{}, error) {
 			return m, nil
 		case "notfound":
 			return nil, nil // JSON null
+		case "garbage":
+			return map[string]interface{}{"blockNumber": nil, "hash": "0x00"}, nil // an object that is no transaction
 		default:
 			return nil, errC10Injected
 		}
@@ -403,18 +409,27 @@ func c10Run(t *testing.T, in c10In) ([]c10Cancel, []string) {
 				origChain = big.NewInt(5)
 			}
 			var orig *types.Transaction
-			switch c.Kind {
-			case "legacy":
+			node.mu.Lock()
+			lastSent := node.lastSent
+			node.mu.Unlock()
+			switch {
+			case c.Kind == "own" && lastSent != nil: // a transaction this very client sent earlier in the session
+				orig = lastSent
+				c.Nonce = orig.Nonce()
+				if orig.ChainId().Cmp(node.chainID) != 0 {
+					t.Errorf("c10: a transaction sent by this client carries chain id %v, client has %v", orig.ChainId(), node.chainID)
+				}
+			case c.Kind == "legacy":
 				orig = types.NewTx(&types.LegacyTx{Nonce: c.Nonce, GasPrice: c10Big(c.Fee), Gas: 60000, To: &other,
 					Value: big.NewInt(5), Data: []byte{0xde, 0xad}})
-			case "access":
+			case c.Kind == "access":
 				orig = types.NewTx(&types.AccessListTx{ChainID: origChain, Nonce: c.Nonce, GasPrice: c10Big(c.Fee), Gas: 60000,
 					To: &other, Value: big.NewInt(5), Data: []byte{0xde, 0xad}})
 			default:
 				orig = types.NewTx(&types.DynamicFeeTx{ChainID: origChain, Nonce: c.Nonce, GasTipCap: c10Big(c.Tip),
 					GasFeeCap: c10Big(c.Fee), Gas: 60000, To: &other, Value: big.NewInt(5), Data: []byte{0xde, 0xad}})
 			}
-			if wire { // a node only serves signed transactions
+			if wire && orig != lastSent { // a node only serves signed transactions
 				signed, err := types.SignTx(orig, types.LatestSignerForChainID(origChain), key)
 				if err != nil {
 					t.Fatalf("c10: signing the original: %v", err)
@@ -613,6 +628,20 @@ func TestVerifC10(t *testing.T) {
 					run("wire-state-"+st, c10In{T: "wire", Kind: k, Nonce: 3, Tip: "10", Fee: "99", Foreign: k == "access", State: st, Sug: sug,
 						Sign: f[0], Sub: f[1]})
 				}
+			}
+		}
+	}
+	for _, k := range kinds {
+		for _, f := range [][2]bool{{true, true}, {true, false}} {
+			run("wire-state-garbage", c10In{T: "wire", Kind: k, Nonce: 3, Tip: "10", Fee: "99", State: "garbage", Sug: "11", Sign: f[0], Sub: f[1]})
+		}
+	}
+	// the target is a transaction this client itself sent: same nonce AND same chain id as the original
+	for _, tr := range []string{"", "wire"} {
+		for _, sug := range []string{"1", "1000000000", "50000000000", "err"} {
+			for _, st := range []string{"pending", "mined"} {
+				run("own-original", c10In{T: tr, Steps: []c10Step{{K: "tip", Sug: "1000000000"}, {K: "send"}, {K: "send"}, {K: "tip", Sug: sug},
+					{K: "cancel", C: &c10In{Kind: "own", State: st, Sign: true, Sub: true}}}})
 			}
 		}
 	}
